@@ -49,6 +49,9 @@ def cases(tier, rng):
     for _ in range(nrand):
         nf = rng.randint(1, 6)
         out.append("r%d enc %s" % (k, ";".join(rnd_frame(rng, 700) for _ in range(nf))))
+        if k % 4 == 0:
+            # the same into a write buffer that still holds an unflushed tail
+            out.append("r%dp enc %s pre=%d" % (k, ";".join(rnd_frame(rng, 700) for _ in range(nf)), rng.choice([1, 2, 9, 300, 70000])))
         k += 1
     big = [70000, 131071, 131072, 1 << 20] if tier == "quick" else [70000, 131071, 131072, 1 << 20, (1 << 23) + 1, 3 << 20]
     for _ in range(100 if tier == "quick" else 800):
